@@ -183,23 +183,61 @@ def render_simple(mod, st):
     raise ValueError(st)
 
 
+GUARD_TEST = {"tc": "TYPE_CHECKING", "typing-tc": "typing.TYPE_CHECKING", "not-tc": "not TYPE_CHECKING", "not-typing-tc": "not typing.TYPE_CHECKING"}
+RESERVED = ("TYPE_CHECKING", "typing")      # bound by the header the harness writes for guarded blocks; left out of every comparison
+
+
+def runtime_stmts(body):
+    """The statements CPython executes, in order: ["guard", kind, body, orelse] contributes its body when the test is `not TYPE_CHECKING`,
+    its orelse when the test is `TYPE_CHECKING`; ["semi", ...] is flattened."""
+    for st in body:
+        if st[0] == "semi":
+            yield from st[1:]
+        elif st[0] == "guard":
+            yield from runtime_stmts(st[2] if st[1].startswith("not-") else st[3])
+        else:
+            yield st
+
+
 def render_module_lines(mod):
-    """(source text, [(statement, first line)]) with ["semi", s1, s2, ...] (several simple statements on one line) flattened."""
+    """(source text, [(statement, first line)]): the statements that run, with ["semi", s1, s2, ...] (several simple statements on one
+    line) and ["guard", kind, body, orelse] (`if [not] [typing.]TYPE_CHECKING:` blocks) flattened.  The statements of a block that
+    only a type checker reads are rendered but not listed."""
     lines = []
     flat = []
-    k = 0
-    for st in mod["body"]:
-        ln = len(lines) + 1
-        if st[0] == "def":
-            k += 1
-            lines.extend(render_def(st[1], st[2], mod["path"], k + len(mod["path"]) * 3 + len(mod["path"][-1])).rstrip("\n").split("\n"))
-            flat.append((st, ln))
-        elif st[0] == "semi":
-            lines.append("; ".join(render_simple(mod, x) for x in st[1:]))
-            flat.extend((x, ln) for x in st[1:])
-        else:
-            lines.append(render_simple(mod, st))
-            flat.append((st, ln))
+    k = [0]
+    guards = [st[1] for st in mod["body"] if st[0] == "guard"]
+    if any(g.endswith("typing-tc") for g in guards):
+        lines.append("import typing")
+    if any(not g.endswith("typing-tc") for g in guards):
+        lines.append("from typing import TYPE_CHECKING")
+
+    def emit(sts, indent, listed):
+        for st in sts:
+            ln = len(lines) + 1
+            if st[0] == "def":
+                k[0] += 1
+                text = render_def(st[1], st[2], mod["path"], k[0] + len(mod["path"]) * 3 + len(mod["path"][-1])).rstrip("\n").split("\n")
+                lines.extend(indent + t for t in text)
+                if listed:
+                    flat.append((st, ln))
+            elif st[0] == "semi":
+                lines.append(indent + "; ".join(render_simple(mod, x) for x in st[1:]))
+                if listed:
+                    flat.extend((x, ln) for x in st[1:])
+            elif st[0] == "guard":
+                lines.append(indent + "if " + GUARD_TEST[st[1]] + ":")
+                negated = st[1].startswith("not-")
+                emit(st[2], indent + "    ", listed and negated)
+                if st[3]:
+                    lines.append(indent + "else:")
+                    emit(st[3], indent + "    ", listed and not negated)
+            else:
+                lines.append(indent + render_simple(mod, st))
+                if listed:
+                    flat.append((st, ln))
+
+    emit(mod["body"], "", True)
     return "\n".join(lines) + "\n", flat
 
 
@@ -249,6 +287,10 @@ def hooked(name, globals=None, locals=None, fromlist=(), level=0):
             if initializing(m):
                 if fromlist:
                     for n in fromlist:
+                        # a submodule already bound on its (initialising) package is the same object at any later time: not a partial read
+                        v = None if n == "*" else getattr(m, n, None)
+                        if n != "*" and isinstance(v, types.ModuleType) and v.__name__ == absn + "." + n:
+                            continue
                         if n == "*" or hasattr(m, n):
                             flags.append([globals["__name__"], absn, n])
                 elif globals["__name__"] != absn and not globals["__name__"].startswith(absn + "."):
@@ -274,7 +316,7 @@ for pk in spec:
         for mn, m in mods.items():
             ns = {}
             for k, v in vars(m).items():
-                if k.startswith("__") and k.endswith("__"):
+                if (k.startswith("__") and k.endswith("__")) or k in ("TYPE_CHECKING", "typing"):
                     continue
                 if isinstance(v, types.ModuleType):
                     ns[k] = ["module", v.__name__]
@@ -372,8 +414,10 @@ def griffe_view(root: Path, pkg):
             mod = stack.pop()
             ns = {}
             for name, mem in mod.members.items():
-                if name.startswith("__") and name.endswith("__"):
+                if (name.startswith("__") and name.endswith("__")) or name in RESERVED:
                     continue
+                if not mem.runtime:
+                    continue          # bound for type checkers only (`if TYPE_CHECKING:`): Griffe keeps the member and marks it
                 if mem.is_alias:
                     try:
                         ft = mem.final_target
@@ -561,8 +605,8 @@ def importable_from(mod, earlier):
         ok = True
         for k in range(1, len(tp)):
             anc = tp[:k]
-            if anc == me[:k] and len(me) > k:
-                continue                      # a package that contains `mod`: already started when `mod` runs
+            if anc == me[:k]:
+                continue                      # a package that contains `mod`, or `mod` itself (an __init__ importing its submodules): already started
             if anc not in early:
                 ok = False
         if ok:
@@ -726,6 +770,31 @@ def gen_body(rng, mod, earlier, sim, mods, rich):
                         tp2 = tuple(rng.choice(cands2)["path"])
                         body.insert(rng.randint(k2 + 1, len(body)), ["from", list(tp2), "__all__", it[1], style()])
                         ns[it[1]] = ("all", dotted(tp2))
+    # blocks guarded by TYPE_CHECKING: `if not [typing.]TYPE_CHECKING:` runs (its statements are ordinary ones), `if [typing.]TYPE_CHECKING:`
+    # does not (it binds fresh names T<k> for type checkers only; its `else:` runs)
+    if rng.random() < 0.12 and body:
+        simple = [i for i, st in enumerate(body) if st[0] in ("def", "from", "star", "import")]
+        if simple:
+            i = rng.choice(simple)
+            j = i + 1 + (1 if i + 1 < len(body) and body[i + 1][0] in ("def", "from", "star", "import") and rng.random() < 0.4 else 0)
+            run = body[i:j]
+            typ = "typing-" if rng.random() < 0.3 else ""
+            tonly = []
+            for q in range(rng.randint(1, 2)):
+                r = rng.random()
+                anym = rng.choice(mods)
+                if r < 0.4:
+                    tonly.append(["def", f"T{q}", "class"])
+                elif r < 0.7 or len(anym["path"]) < 2:
+                    tonly.append(["import", list(anym["path"]), f"T{q}"])
+                else:
+                    tonly.append(["from", list(anym["path"][:-1]), anym["path"][-1], f"T{q}", "abs"])
+            if rng.random() < 0.5:
+                body[i:j] = [["guard", "not-" + typ + "tc", run, []]]
+            elif rng.random() < 0.6:
+                body[i:j] = [["guard", typ + "tc", tonly, run]]
+            else:
+                body.insert(rng.randint(0, len(body)), ["guard", typ + "tc", tonly, []])
     sim.ns[me] = ns
     mod["body"] = body
 
@@ -741,7 +810,7 @@ def add_back_edges(rng, pkg):
             return
         m = mods[order[i]]
         t = mods[rng.choice(later)]
-        defs = [st[1] for st in t["body"] if st[0] == "def"]
+        defs = [st[1] for st in runtime_stmts(t["body"]) if st[0] == "def"]
         if defs and rng.random() < 0.3:
             st = ["from", list(t["path"]), rng.choice(defs), None, "abs"]
         else:
@@ -1037,6 +1106,8 @@ def has_stmt(pkg, tag):
     def walk(st):
         if st[0] == tag:
             return True
+        if st[0] == "guard":
+            return any(walk(x) for x in st[2] + st[3])
         return st[0] == "semi" and any(walk(x) for x in st[1:])
     return any(walk(st) for m in pkg["modules"] for st in m["body"])
 
@@ -1178,6 +1249,16 @@ def hand_packages():
         _m(["h2", "s", "n0"], False, [["from", ["h2", "s", "t", "d0"], "K", "g", "rel"], ["import", ["h2", "s", "t", "d0"], "x"]]),
         _m(["h2", "s", "t"], True, [["star", ["h2", "s", "t", "d0"], "rel"], ["setall", "tuple", [["s", "K"], ["s", "d0"]]]]),
         _m(["h2", "s", "t", "d0"], False, [["def", "K", "class"], ["def", "_Q", "class"]])]})
+    # blocks guarded by TYPE_CHECKING: the negated test and the else branch run, the plain test binds names for type checkers only
+    H.append({"name": "h3", "order": ["h3", "h3.a", "h3.c", "h3.d", "h3.e"], "modules": [
+        _m(["h3"], True, []),
+        _m(["h3", "a"], False, [["def", "f", "func"], ["def", "K", "class"]]),
+        _m(["h3", "c"], False, [["guard", "not-tc", [["from", ["h3", "a"], "f", None, "rel"], ["def", "g", "func"]], []],
+                                ["guard", "typing-tc", [["from", ["h3", "e"], "h", "T0", "abs"], ["def", "T1", "class"]], [["from", ["h3", "a"], "K", None, "abs"]]],
+                                ["guard", "not-typing-tc", [["import", ["h3", "a"], "x"]], []]]),
+        _m(["h3", "d"], False, [["star", ["h3", "c"], "rel"], ["from", ["h3", "c"], "g", "z", "abs"]]),
+        _m(["h3", "e"], False, [["guard", "tc", [["import", ["h3", "d"], "T0"]], []], ["star", ["h3", "d"], "abs"], ["def", "h", "func"],
+                                ["setall", "list", [["s", "f"], ["s", "h"]]]])]})
     # witnesses of repaired findings (F1, F2, F6, F9, F11): they must now agree with the interpreter
     H.extend(v for k, v in all_witnesses().items() if k in REPAIRED)
     return H
@@ -1187,13 +1268,10 @@ def hand_packages():
 # explore
 # --------------------------------------------------------------------------------------------------------------------
 def stmt_tags(pkg):
+    """(module, statement) for every statement that runs."""
     for m in pkg["modules"]:
-        for st in m["body"]:
-            if st[0] == "semi":
-                for x in st[1:]:
-                    yield m, x
-            else:
-                yield m, st
+        for st in runtime_stmts(m["body"]):
+            yield m, st
 
 
 def observe_package(ctx, pkg, stream):
@@ -1225,6 +1303,10 @@ def observe_package(ctx, pkg, stream):
             if len(set(strs)) < len(strs):
                 ctx.observe("all_duplicate_string", t)
         ctx.observe("stmt", t)
+    for m in pkg["modules"]:
+        for st in m["body"]:
+            if st[0] == "guard":
+                ctx.observe("guard", st[1] + ("+else" if st[3] else ""))
     ctx.observe("all_source_binding", "flow-sensitive" if flow_sensitive_sources(pkg) else "bound-once-before-use")
     for m in pkg["modules"]:
         if m["init"] and len(m["path"]) > 0:
@@ -1308,7 +1390,12 @@ def check_packages(ctx, pkgs, stream, direct=True):
             continue
         ctx.observe("validity", "ok")
         # ---- (O) spec vs interpreter
-        dso = diff_spec_oracle(sp, a)
+        if sp["error"] == "not-executed-yet":
+            # py_import gives no meaning to a read of a module that has not run, unless it is a submodule name the module cannot bind itself
+            ctx.observe("validity", "ok-but-outside-py_import")
+            dso = []
+        else:
+            dso = diff_spec_oracle(sp, a)
         if dso:
             ctx.tie_failure("oracle", "py_import(model) vs CPython", {"diffs": dso[:6]}, case)
         ctx.count("o_compared")
